@@ -359,6 +359,6 @@ theorem huge_diag (fs : Files) (n : Nat) (hn : n = 70000) :
     rw [fixOne_selfMinus_diag k4 k5 k6 (by rw [hn]; exact k7)]
   have h5 : fixAll (List.replicate n org2 ++ [far4, x4]) 0 (List.replicate n org2 ++ [far4, x4]) = .diag := by
     rw [fixAll_replicate hplain', Nat.zero_add, fixAll_cons, hfar]
-  rw [h5]
+  rw [fixAllL_diag.2 (Or.inl h5)]
 
 end CoCo.Asm
